@@ -123,6 +123,44 @@ func genJSONDoc(s *Stream, depth int) jdoc {
 	}
 }
 
+// genDeepJSON: a document nested as deep as the server allows (100 containers),
+// one level less, or any depth in between; the innermost container holds a scalar
+// (or nothing), some levels have a sibling scalar next to the nested container.
+func genDeepJSON(s *Stream) jdoc {
+	depth := []int{100, 100, 99, 98, 5 + s.N(96)}[s.N(5)]
+	var inner jdoc
+	if s.Chance(1, 2) {
+		inner = jdoc{Kind: jArray}
+	} else {
+		inner = jdoc{Kind: jObject}
+	}
+	if !s.Chance(1, 8) {
+		leaf := genJSONDoc(s, 3)
+		if inner.Kind == jObject {
+			inner.Keys = []string{"v"}
+		}
+		inner.Kids = []jdoc{leaf}
+	}
+	d := inner
+	for i := 1; i < depth; i++ {
+		var c jdoc
+		if s.Chance(1, 2) {
+			c = jdoc{Kind: jArray, Kids: []jdoc{d}}
+			if s.Chance(1, 10) {
+				c.Kids = append(c.Kids, genJSONDoc(s, 3))
+			}
+		} else {
+			c = jdoc{Kind: jObject, Keys: []string{"a"}, Kids: []jdoc{d}}
+			if s.Chance(1, 10) {
+				c.Keys = append(c.Keys, "b")
+				c.Kids = append(c.Kids, genJSONDoc(s, 3))
+			}
+		}
+		d = c
+	}
+	return d
+}
+
 func jsonVarLen(n int) []byte {
 	out := []byte{}
 	for {
